@@ -102,7 +102,8 @@ def gen(rng, tier):
             "preempt_at": L.gen_preempt_at(rng, ["send", "_send_item", "itemcallback", "_done", "_process_link", "add_target",
                                                  "_local_receive"], maxn=60, p=0.3),
             "faults": [], "tree": tree, "prior": prior, "steps": steps, "delete": rng.random() < 0.5,
-            "cwd": rng.choice(["outside", "inside", "inside-sub"]), "scratch": "vsim-c17-%08x" % rng.randrange(1 << 32)}
+            "cwd": rng.choice(["outside", "inside", "inside-sub"]), "scratch": "vsim-c17-%08x" % rng.randrange(1 << 32),
+            "slashes": rng.choice([0, 0, 1, 2, 3])}
 
 
 def shrink_cases(case):
@@ -394,9 +395,11 @@ def c17_script(ctx, aid, oi, table, op):
                 def _report_send_file(self, gateway, modified_rel_path):
                     reported.append((str(gateway.id), modified_rel_path))
 
-            r = R(srcdir, verbose=False)
+            # the same directories, spelt with or without a trailing slash
+            sl = case.get("slashes", 0)
+            r = R(srcdir + ("/" if sl & 1 else ""), verbose=False)
             for gw, d in zip(ctx.gws, dests):
-                r.add_target(gw, d, delete=case["delete"])
+                r.add_target(gw, d + ("/" if sl & 2 else ""), delete=case["delete"])
             r.send()
             return reported
 
